@@ -1,8 +1,8 @@
 package rules
 
 import (
-	"go/token"
 	"fmt"
+	"go/token"
 	"go/types"
 	"sort"
 	"strings"
@@ -272,6 +272,7 @@ func c11Flag(e *Env, loop, try *ssa.Function) {
 		okBusy := false
 		for _, i := range core.IfsOf(try) {
 			cond, neg := core.StripNot(i.Cond)
+			cond = core.Resolve(cond) // the flag may be read through a small helper predicate
 			if c, is := cond.(*ssa.Call); is && strings.HasSuffix(core.CalleeName(c), "atomic.Bool.Load") {
 				k := 0
 				if neg {
@@ -448,7 +449,9 @@ func c11OwnMID(e *Env) {
 	}
 	e.R.Check(rets >= 1, rule, "udp/client.Conn.checkMyMessageID:far-returns", e.fpos(f), "returns without touching the counter only on the far edge", "no return on the far edge")
 	okStep := false
-	for _, c := range core.Calls(f, func(n string, _ ssa.CallInstruction) bool { return strings.HasSuffix(n, "atomic.Uint32.CompareAndSwap") }) {
+	for _, c := range core.Calls(f, func(n string, _ ssa.CallInstruction) bool {
+		return strings.HasSuffix(n, "atomic.Uint32.CompareAndSwap")
+	}) {
 		if add, isAdd := core.Unwrap(core.Arg(c, 2)).(*ssa.BinOp); isAdd && add.Op == token.ADD {
 			if k, isK := core.ConstInt(add.Y); isK && k >= thr && k <= 0xffff-thr && core.OnlyViaEdge(guard, false, c.(ssa.Instruction)) {
 				okStep = true
